@@ -29,9 +29,32 @@ RULE = ("cases = operation sequences (<= 30 / 60 steps) on a message of a genera
         "earlier mutation; distinct = distinct hash of (schema text, operation log)")
 ASSUME = ["reference model: dict/list tree with the rules of docs/python_codec.rst and the _check contracts",
           "where the documentation is silent on accept-vs-reject (bool for int, int for float) such arguments are "
-          "not generated", "NaN is not generated", "non-fixed bytes fields are excluded while finding P3 is open"]
+          "not generated", "NaN is not generated", "a non-message element given to a composite array's extend() is "
+          "refused with TypeError (pinned by the suite: test_array_bound) - the state must still be unchanged", "non-fixed bytes fields are excluded while finding P3 is open"]
 
 LISTY = (IndexError, ValueError)
+
+
+class _Hang(BaseException):
+    pass
+
+
+def with_watchdog(fn, seconds=5):
+    """Run fn under a SIGALRM watchdog: an operation that does not terminate becomes a failure, not a stuck check."""
+    import signal
+
+    def on_alarm(signum, frame):
+        raise _Hang()
+    old = signal.signal(signal.SIGALRM, on_alarm)
+    # repeating: an exception raised while a gc callback or __del__ runs is swallowed by the interpreter
+    signal.setitimer(signal.ITIMER_REAL, seconds, 0.05)
+    try:
+        return fn()
+    except _Hang:
+        raise RuntimeError('operation did not terminate within %d s' % seconds)
+    finally:
+        signal.setitimer(signal.ITIMER_REAL, 0)
+        signal.signal(signal.SIGALRM, old)
 
 
 def prophy_error():
@@ -431,8 +454,42 @@ class Machine(RuleBasedStateMachine):
                 msgs = [self.codec.build(self.schema.resolve(m.type).name, self.from_model(m.type, v)) for v in vals]
                 too_many = limit is not None and len(lst) + k > limit
                 self.structural()
-                self.apply('%s.extend(<%d messages>)' % (where, k), lambda: arr.extend(msgs),
-                           lambda: lst.extend(vals), 'reject' if too_many else 'ok')
+                how = data.draw(st.sampled_from(['list', 'list', 'tuple', 'generator', 'self', 'bad_element']),
+                                label='extend argument')
+                if how == 'self':
+                    # the array itself as the argument (list semantics: the elements once more)
+                    import copy
+                    too_many = limit is not None and 2 * len(lst) > limit
+                    hung = []
+
+                    def self_extend():
+                        try:
+                            with_watchdog(lambda: arr.extend(arr), 1)
+                        except RuntimeError:
+                            hung.append(len(arr))
+                            del arr[:]
+                    desc = '%s.extend(%s)' % (where, where)
+                    self.apply(desc, self_extend, lambda: lst.extend(copy.deepcopy(lst)), 'reject' if too_many else 'ok')
+                    if hung:
+                        # recorded directly (not raised): shrinking a failure that costs a second and a million
+                        # objects per attempt would take the shrinker's whole budget in every worker
+                        if not any('did not terminate' in v['what'] for v in self.stats.violations):
+                            payload = common.case_payload(self.schema, self.root, None, {'array length reached': hung[0]})
+                            payload['operations'] = list(self.log)
+                            self.stats.violations.append({'what': '%s did not terminate within 1 s (array grew to %d '
+                                                          'elements)' % (desc, hung[0]), 'case': payload})
+                        self.ready = False
+                elif how == 'bad_element':
+                    # a non-message among the messages: refused as a whole (TypeError is what the suite pins for it)
+                    pos = data.draw(st.integers(0, k), label='bad position')
+                    bad = data.draw(st.sampled_from([5, None, 'x', b'', 1.5]), label='bad element')
+                    arg = msgs[:pos] + [bad] + msgs[pos:]
+                    self.apply('%s.extend(<%d messages with %r at %d>)' % (where, k, bad, pos), lambda: arr.extend(arg),
+                               None, 'reject', (TypeError,))
+                else:
+                    arg = {'list': lambda: msgs, 'tuple': lambda: tuple(msgs), 'generator': lambda: (x for x in msgs)}[how]()
+                    self.apply('%s.extend(<%d messages as %s>)' % (where, k, how), lambda: arr.extend(arg),
+                               lambda: lst.extend(vals), 'reject' if too_many else 'ok')
             elif op == 'delitem':
                 i = data.draw(idx_st, label='index')
                 inrange = -len(lst) <= i < len(lst)
